@@ -144,16 +144,21 @@ fn judge(c: &Case, strat: &str, k: usize, arr: R, singles: Vec<R>, into: (R, boo
 
 fn data_nd(shape: &[usize]) -> ArrayD<f64> {
     let mut c = 0.0f64;
-    ArrayD::from_shape_fn(IxDyn(shape), |_| {
+    let mut d = ArrayD::from_shape_fn(IxDyn(shape), |_| {
         c += 1.0;
         (c * 0.37).sin() * 3.0 + c * 0.1
-    })
+    });
+    // the samples at the first knot are -0.0: queries 0.0 and -0.0 then differ in the sign of zero
+    if !shape.is_empty() && shape[0] > 0 {
+        d.index_axis_mut(Axis(0), 0).fill(-0.0);
+    }
+    d
 }
 
 /// queries that hit knots exactly right after a query in the interval left of the knot, repeat
 /// values and are not sorted (the default axes have their knots at 0, 1, 2, ...)
 fn query_nd(shape: &[usize], lo: f64, hi: f64, salt: f64, bad_at: Option<usize>, bad: f64) -> ArrayD<f64> {
-    const PAT: [f64; 12] = [0.75, 1.0, 2.5, 2.0, 1.5, 2.0, 0.0, 3.0, 0.25, 1.0, 1.0, 2.9999999999999996];
+    const PAT: [f64; 14] = [0.75, 1.0, 2.5, 2.0, 1.5, 2.0, 0.0, -0.0, 3.0, 0.25, 1.0, 1.0, 2.9999999999999996, 0.0];
     let mut i = 0usize;
     let s = salt as usize;
     let total: usize = shape.iter().product();
@@ -189,12 +194,14 @@ fn query_layouts(q: ArrayD<f64>) -> Vec<(&'static str, ArrayD<f64>)> {
 macro_rules! into_call {
     ($shape:expr, |$w:ident| $call:expr) => {{
         let shape: &Vec<usize> = $shape;
-        let bs: Vec<usize> = shape.iter().map(|s| s + 2).collect();
+        // a margin of poison around the first three axes (more would explode for high ranks)
+        let m = |ax: usize| if ax < 3 { 1usize } else { 0 };
+        let bs: Vec<usize> = shape.iter().enumerate().map(|(ax, s)| s + 2 * m(ax)).collect();
         let mut big = ArrayD::from_elem(IxDyn(&bs), POISON);
         let r = {
             let mut win = big.view_mut();
             for (ax, &s) in shape.iter().enumerate() {
-                win.slice_axis_inplace(Axis(ax), ndarray::Slice::from(1..1 + s));
+                win.slice_axis_inplace(Axis(ax), ndarray::Slice::from(m(ax)..m(ax) + s));
             }
             match win.into_dimensionality() {
                 Ok($w) => catch(|| $call),
@@ -203,7 +210,7 @@ macro_rules! into_call {
         };
         let mut inside = big.view();
         for (ax, &s) in shape.iter().enumerate() {
-            inside.slice_axis_inplace(Axis(ax), ndarray::Slice::from(1..1 + s));
+            inside.slice_axis_inplace(Axis(ax), ndarray::Slice::from(m(ax)..m(ax) + s));
         }
         let logical = inside.to_owned();
         let total_poison = big.iter().filter(|v| v.to_bits() == POISON.to_bits()).count();
@@ -385,19 +392,45 @@ fn scalar_checks(out: &mut JobOut) {
     let _ = Array2::<f64>::zeros((1, 1));
 }
 
+/// the query is a view into the same buffer as the axis (same start, same length, other stride)
+fn alias_checks(out: &mut JobOut) {
+    use ndarray::s;
+    let b: Array1<f64> = Array1::from((0..12).map(|i| i as f64 * 0.25).collect::<Vec<_>>());
+    for (xs, qs) in [(2isize, 1isize), (1, 2), (3, 1), (1, 1)] {
+        let x = b.slice(s![..;xs]);
+        let n = 4.min(x.len());
+        let x = x.slice(s![..n]);
+        let q = b.slice(s![..;qs]);
+        let q = q.slice(s![..n]);
+        let data: Array1<f64> = (0..n).map(|i| ((i + 1) as f64 * 0.7).sin()).collect();
+        for ex in [false, true] {
+            let Ok(ip) = Interp1DBuilder::new(data.clone()).x(x).strategy(Linear::new().extrapolate(ex)).build() else {
+                out.violate(format!("alias:build:{xs}:{qs}"), "valid build rejected".to_string(), Json::Null);
+                continue;
+            };
+            let c = Case { two_d: false, d: "Ix1", dq: "Ix1", data_shape: vec![n], query_shape: vec![n], bad_at: None };
+            let arr: R = catch(|| ip.interp_array(&q)).map(|r| r.map(|a| a.into_dyn()));
+            let singles: Vec<R> = q.iter().map(|&v| catch(|| ip.interp(v)).map(|r| r.map(|a| a.into_dyn()))).collect();
+            let into = into_call!(&vec![n], |w| ip.interp_array_into(&q, w));
+            judge(&c, &format!("Linear(extrapolate={ex})/query-aliases-the-axis(strides {xs},{qs})"), 1, arr, singles, into, None, out);
+            out.states += 1;
+        }
+    }
+}
+
 fn body(ctx: &Ctx) -> (Summary, Meta) {
     let quick = ctx.quick();
-    let dims1 = [("Ix1", 1usize), ("Ix2", 2), ("Ix3", 3), ("Ix4", 4), ("Ix5", 5), ("Ix6", 6), ("dyn", 1), ("dyn", 3), ("dyn", 7)];
-    let dims2 = [("Ix2", 2usize), ("Ix3", 3), ("Ix4", 4), ("Ix5", 5), ("Ix6", 6), ("dyn", 2), ("dyn", 4), ("dyn", 8)];
+    let dims1 = [("Ix1", 1usize), ("Ix2", 2), ("Ix3", 3), ("Ix4", 4), ("Ix5", 5), ("Ix6", 6), ("dyn", 1), ("dyn", 3), ("dyn", 7), ("dyn", 14), ("dyn", 20)];
+    let dims2 = [("Ix2", 2usize), ("Ix3", 3), ("Ix4", 4), ("Ix5", 5), ("Ix6", 6), ("dyn", 2), ("dyn", 4), ("dyn", 8), ("dyn", 15)];
     let qdims: Vec<(&str, Vec<Vec<usize>>)> = vec![
         ("Ix0", vec![vec![]]),
-        ("Ix1", vec![vec![3], vec![0], vec![1]]),
-        ("Ix2", vec![vec![2, 2], vec![2, 0], vec![1, 3]]),
+        ("Ix1", vec![vec![3], vec![0], vec![1], vec![9]]),
+        ("Ix2", vec![vec![2, 2], vec![2, 0], vec![1, 3], vec![3, 3]]),
         ("Ix3", vec![vec![2, 1, 2], vec![0, 2, 1]]),
         ("Ix4", vec![vec![2, 1, 1, 2]]),
-        ("dyn", vec![vec![], vec![3], vec![0], vec![2, 2], vec![2, 1, 2], vec![2, 1, 1, 2], vec![1, 2, 1, 1, 2]]),
+        ("dyn", vec![vec![], vec![3], vec![0], vec![9], vec![2, 2], vec![2, 1, 2], vec![2, 1, 1, 2], vec![1, 2, 1, 1, 2]]),
     ];
-    let base = [4usize, 2, 3, 2, 1, 2, 2, 1];
+    let base = [4usize, 2, 3, 2, 1, 2, 2, 1, 1, 1, 2, 1, 1, 1, 1, 1, 1, 1, 1, 1, 1];
     let mut cases = vec![];
     for (two_d, dims) in [(false, &dims1[..]), (true, &dims2[..])] {
         for &(d, rank) in dims {
@@ -447,11 +480,12 @@ fn body(ctx: &Ctx) -> (Summary, Meta) {
     let sc = run_jobs(ctx, "scalar", &[()], |_| "scalar".to_string(), |_| {
         let mut out = JobOut::default();
         scalar_checks(&mut out);
+        alias_checks(&mut out);
         out
     });
     sum.merge(sc);
     let meta = Meta {
-        rule: "every instantiation {Interp1D x data Ix1..Ix6, IxDyn(rank 1,3,7); Interp2D x data Ix2..Ix6, IxDyn(rank 2,4,8)} x query dimension types Ix0..Ix4, IxDyn(rank 0..5; incl. dynamic rank 1, which takes the general path) x query shapes incl. empty ones x data shapes incl. a zero-length trailing axis x strategies {Linear, Linear+extrapolate, CubicSpline / Bilinear, Bilinear+extrapolate} x {all in range, one out-of-range element at the last / first / middle position}. Oracle: result shape = query shape ++ trailing data dims (also when the combined rank exceeds 6); interp_array(q)[i] == interp(q[i]) bit for bit; the batch is Ok iff every element is; interp_array_into into a poisoned window equals interp_array and leaves the surroundings intact; interp_scalar == interp. Every case is non-trivial.".into(),
+        rule: "every instantiation {Interp1D x data Ix1..Ix6, IxDyn(rank 1,3,7); Interp2D x data Ix2..Ix6, IxDyn(rank 2,4,8)} x query dimension types Ix0..Ix4, IxDyn(rank 0..5; incl. dynamic rank 1, which takes the general path) x query shapes incl. empty ones x data shapes incl. a zero-length trailing axis x strategies {Linear, Linear+extrapolate, CubicSpline / Bilinear, Bilinear+extrapolate} x {all in range, one out-of-range element at the last / first / middle position}. Oracle: result shape = query shape ++ trailing data dims (also when the combined rank exceeds 6); interp_array(q)[i] == interp(q[i]) bit for bit; the batch is Ok iff every element is; interp_array_into into a poisoned window equals interp_array and leaves the surroundings intact; interp_scalar == interp. Queries hit knots exactly, repeat values, contain 0.0 next to -0.0 (the samples at the first knot are -0.0) and, in a separate group, are views into the same buffer as the axis. Every case is non-trivial.".into(),
         bounds: format!("{ncases} cases over 78 static/dynamic instantiations x 3 (2) strategies; tier {}", ctx.tier.name()),
         assumptions: vec![],
         extra: vec![],
